@@ -37,6 +37,22 @@ def install(lib):
     E["marshmallow.validate.OneOf"] = lambda I, a, k, fr, n: LibObj(
         "mm_oneof", choices=tuple(a[0]) if a else tuple(k["choices"]), bad_exc=_template_exc(k.get("error"), ("input", "choices", "labels")))
 
+    def v_length(I, a, k, fr, n):
+        """validate.Length(min=None, max=None, *, equal=None, error=None): bounds on len(value) (A-MM)."""
+        names = ("min", "max")
+        kk = dict(zip(names, a))
+        kk.update(k)
+        if set(kk) - {"min", "max", "equal", "error"} or len(a) > 2:
+            raise Unsupported("validate.Length arguments")
+        if kk.get("equal") is not None and (kk.get("min") is not None or kk.get("max") is not None):
+            raise RaiseSig(I.make_exc("ValueError", site=n))
+        for x in ("min", "max", "equal"):
+            if kk.get(x) is not None and not isinstance(kk[x], int):
+                raise Unsupported("validate.Length with a non-literal bound")
+        return LibObj("mm_length", min=kk.get("min"), max=kk.get("max"), equal=kk.get("equal"),
+                      bad_exc=_template_exc(kk.get("error"), ("input", "min", "max", "equal")))
+    E["marshmallow.validate.Length"] = v_length
+
     # ---- clock (A-CLOCK)
     def localtime(I, a, k, fr, n):
         lib.tick += 1
